@@ -82,4 +82,14 @@ def units():
                       "loops": {fn: [inner, outer]}, "timeout": 900, "kind": "enumerated(channels=%d)" % ch,
                       "tier": "quick" if ch == 2 else "thorough",
                       "note": "count is a whole number of frames (caller obligation, checked in the float32/double64 writer units)"})
+    for ch in (1, 2, 3):
+        for en in ("LITTLE", "BIG"):
+            U.append({"name": "peak.wav_chunk_pair.ch%d.%s" % (ch, en.lower()), "props": ["C18", "C04"], "harness": "peak_pair.harness.c", "entry": "h_peak_pair", "dfcc": False,
+                      "function": "wavlike.c:wavlike_write_peak_chunk + wavlike_read_peak_chunk (with common.c psf_binheader_writef/readf)",
+                      "link_sources": ["common.c"], "defines": ["-DCH=%d" % ch, "-DENDIAN=SF_ENDIAN_" + en, "-include", "/verif/spec/abi_vaarg.h"],
+                      "pre_gi_flags": ["--remove-function-body", "psf_log_printf"], "cbmc_flags": ["--object-bits", "9", "--unwind", "70"], "timeout": 900,
+                      "tier": "quick" if (ch == 2 and en == "LITTLE") or (ch == 3 and en == "BIG") else "thorough",
+                      "kind": "proof(pair lemma; channels and byte order enumerated; peak values and positions symbolic)",
+                      "trusted": ["float32_{le,be}_{read,write} stand-ins equal to the native representation (proved for normal values in units ieee.float32_*)",
+                                  "spec/abi_vaarg.h (variadic int arguments fetched as size_t)"]})
     return U
